@@ -131,9 +131,14 @@ def run(ck):
         hdr = ["cfg k=%d w=8 handlers=1 burst=%d bsize=%d highq=20" % (k, burst, rng.range(4, 40)), "start", "connect c0 10.0.0.9:99", "tick"]
         lines = hdr + ["rx c0 " + apci.STARTDT_ACT.hex(), "tick", "poke c0 vs=%d vr=0" % vs0,
                        "rx c0 " + apci.i_frame(0, vs0, apci.asdu(100, 6, 1, bytes([0, 0, 0, 20]))).hex(), "tick 3"]
+        total = burst + 1
+        if i % 4 == 1:
+            # the window holds EVENTS (entries tied to the event queue) instead of replies, also across the 32767 -> 0 wrap
+            vs0 = rng.choice([32767, 32768 - k, 32766, 32768 - 2 * k if k > 1 else 32765])
+            lines = hdr + ["rx c0 " + apci.STARTDT_ACT.hex(), "tick", "poke c0 vs=%d vr=0" % vs0]
+            lines += ["enq " + apci.asdu(30, 3, 1, bytes([j & 255, j >> 8, 0])).hex() for j in range(1, burst + 2)] + ["tick 3"]
         # acknowledge in random steps
         acked = 0
-        total = burst + 1
         sent_est = min(k, total)
         steps = []
         while acked < total:
@@ -258,6 +263,8 @@ def run(ck):
     A = apci.asdu(45, 6, 1, bytes([1, 0, 0, 1])).hex()
     for i in range(12 if quick else 120):
         ks = [rng.choice([1, 2, 3, 5, 12, 20]) for _ in range(rng.range(1, 3))]
+        if i % 3 == 1:
+            ks = [ks[0]] * 3            # the same object reconnects with k unchanged: every connection starts with an empty window
         lines = []
         for j, k in enumerate(ks):
             lines += ["cfg k=%d w=8" % k, "connect", "startdt", "step", "rx " + apci.STARTDT_CON.hex(), "step"]
@@ -284,6 +291,16 @@ def run(ck):
             w = cmd.split()
             if w[0] == "connect":
                 conn += 1; sent = acked = 0
+            # every acknowledgement in these scripts is valid and nothing times out: the client must keep the connection, and must
+            # accept a send whenever fewer than k I-frames are in flight
+            if w[0] != "close" and any(l.startswith("ev CLOSED") for l in blk):
+                ck.fail("input", "oracle:kbuf:client-closed-on-valid-ack", "client closed connection %d (k=%d, parameters %s over successive connections) during `%s` although every N(R) it received acknowledged frames it had sent (%d sent, %d acknowledged)" % (
+                    conn + 1, ks[conn], ks, cmd, sent, acked), {"script": lines, "role": "client-trace", "observed": blk[-3:]})
+                break
+            if w[0] == "send" and "ret 0" in blk and conn >= 0 and sent - acked < ks[conn]:
+                ck.fail("input", "oracle:kbuf:client-refused-below-k", "client refused a send with %d I-frames in flight on a connection made with k=%d (parameters %s over successive connections)" % (sent - acked, ks[conn], ks),
+                        {"script": lines, "role": "client-trace", "observed": blk[-3:]})
+                break
             for l in blk:
                 if l.startswith("raw out "):
                     f = bytes.fromhex(l.split()[2])
